@@ -450,3 +450,67 @@ func different(rng *rand.Rand, kind, dt string, raw any, siblings int) (any, boo
 	}
 	return nil, false
 }
+
+// ---- near misses: values that LOOK like the original but are different strings ----
+
+type variant struct {
+	Name string
+	V    any
+}
+
+var lookAlike = map[rune]rune{'a': 'а', 'e': 'е', 'o': 'о', 'c': 'с', 'p': 'р', 'x': 'х', 'y': 'у',
+	'A': 'А', 'B': 'В', 'E': 'Е', 'H': 'Н', 'O': 'О', 'T': 'Т', '0': 'О', '1': 'l', 'l': '1'}
+
+// nearStrings: for string-like leaves (xsd:string, untyped, custom datatypes, IRIs): every
+// variant is a DIFFERENT string (whiteSpace=preserve; no case folding, no Unicode
+// normalisation is part of the encoding), so each must change the root.
+func nearStrings(kind string, s string) []variant {
+	var out []variant
+	if kind != "iri" {
+		out = append(out,
+			variant{"trailing-space", s + " "}, variant{"leading-space", " " + s},
+			variant{"leading-tab", "\t" + s}, variant{"trailing-newline", s + "\n"},
+			variant{"trailing-nbsp", s + " "}, variant{"leading-nbsp", " " + s},
+			variant{"trailing-crlf", s + "\r\n"}, variant{"inner-double-space", strings.Replace(s, " ", "  ", 1)})
+	}
+	out = append(out, variant{"trailing-dot", s + "."})
+	sw := []rune(s)
+	for i, r := range sw {
+		if r >= 'a' && r <= 'z' {
+			sw[i] = r - 32
+			break
+		}
+		if r >= 'A' && r <= 'Z' {
+			sw[i] = r + 32
+			break
+		}
+	}
+	out = append(out, variant{"case-change", string(sw)})
+	la := []rune(s)
+	start := 0
+	if kind == "iri" {
+		start = strings.LastIndex(s, ":") + 1 // keep the scheme
+	}
+	for i := start; i < len(la); i++ {
+		if n, ok := lookAlike[la[i]]; ok {
+			la[i] = n
+			out = append(out, variant{"unicode-look-alike", string(la)})
+			break
+		}
+	}
+	var res []variant
+	for _, v := range out {
+		if v.V != s {
+			res = append(res, v)
+		}
+	}
+	return res
+}
+
+// paddedTyped: for integer / boolean / dateTime / double leaves written as strings: the value
+// surrounded by whitespace.  Acceptable outcomes: an error, or the SAME value (the XSD types
+// collapse whitespace); anything else is a silent collision / corruption.
+func paddedTyped(s string) []variant {
+	return []variant{{"trailing-space", s + " "}, {"leading-space", " " + s}, {"leading-tab", "\t" + s},
+		{"trailing-newline", s + "\n"}, {"trailing-nbsp", s + " "}}
+}
